@@ -6,12 +6,12 @@ import (
 	"github.com/go-i2p/common/destination"
 	"github.com/go-i2p/common/key_certificate"
 	"github.com/go-i2p/common/keys_and_cert"
-	"github.com/go-i2p/common/router_identity"
-	"github.com/go-i2p/crypto/types"
 	"github.com/go-i2p/common/router_address"
+	"github.com/go-i2p/common/router_identity"
 	"github.com/go-i2p/common/router_info"
 	"github.com/go-i2p/common/session_key"
 	"github.com/go-i2p/common/session_tag"
+	"github.com/go-i2p/crypto/types"
 )
 
 // Mutable objects (Objects.tla): ObjNew creates the session's object, ObjCall applies one exported mutator to it.
